@@ -324,17 +324,19 @@ def plan(ctx):
               ('lt_1d', 3600 * US, 86400 * US - 1), ('ge_1d', 86400 * US, 2 ** 64 - 1)]
     for nm, lo, hi in ranges:
         groups.append(Group(name='Time.format_duration[%s]' % nm, harness='harness/C18/duration.c', entry='h_format_duration',
-                            function='format_duration', enforce='format_duration', replace=['c18_ratio', 'c18_lemma_dhm'],
+                            function='format_duration', enforce='format_duration', replace=['c18_fdiv', 'c18_lemma_dhm'],
                             defines=['DUR_LO=%dull' % lo, 'DUR_HI=%dull' % hi], first='cvc5', stage1=60, timeout=300, replay=RP,
                             clause_note='contracts/C18_duration.h: never throws; grammar [d:][h:][m:]s[.f]; inner fields two characters zero padded; '
                                         'fields * unit + numerator of the printed seconds == usecs; h<24, m<60, s<60; requested precision'))
-    groups.append(Group(name='stub.c18_ratio.bounds', harness='harness/C18/duration.c', entry='h_ratio', function='(double)num / den (model lemma)',
-                        enforce='c18_ratio', defines=['DUR_LO=0', 'DUR_HI=0'], kind='lemma', first='cvc5', stage1=60, timeout=300))
+    groups.append(Group(name='stub.c18_fdiv.bounds', harness='harness/C18/duration.c', entry='h_fdiv', function='(double)num / den (model lemma)',
+                        enforce='c18_fdiv', defines=['DUR_LO=0', 'DUR_HI=0'], kind='lemma', first='cvc5', stage1=60, timeout=300))
     INTBLAST = dict(engines=['cvc5'], cbmc_flags=['--external-smt2-solver', os.path.join(VERIF, 'tools', 'C18_cvc5_int.sh')], stage1=120, timeout=120)
     groups.append(Group(name='lemma.nested_div', harness='harness/C18/duration.c', entry='h_lemma_nested_div', function='u / (a*b) == (u / a) / b (arithmetic lemma)',
                         enforce='c18_lemma_nested_div', defines=['DUR_LO=0', 'DUR_HI=0'], kind='lemma', min_post=2, **INTBLAST))
+    groups.append(Group(name='lemma.cong24', harness='harness/C18/duration.c', entry='h_lemma_cong24', function='x == y ==> x % 24 == y % 24 (arithmetic lemma)',
+                        enforce='c18_lemma_cong24', defines=['DUR_LO=0', 'DUR_HI=0'], kind='lemma'))
     groups.append(Group(name='lemma.dhm', harness='harness/C18/duration.c', entry='h_lemma_dhm', function='days/hours/minutes decomposition (arithmetic lemma)',
-                        enforce='c18_lemma_dhm', replace=['c18_lemma_nested_div'], defines=['DUR_LO=0', 'DUR_HI=0'], kind='lemma', min_post=4, **INTBLAST))
+                        enforce='c18_lemma_dhm', replace=['c18_lemma_nested_div', 'c18_lemma_cong24'], defines=['DUR_LO=0', 'DUR_HI=0'], kind='lemma', min_post=8, **INTBLAST))
     return groups
 
 
